@@ -566,10 +566,19 @@ def queueRange (prefix_ : Option Str) : SqlVal × SqlVal :=
 
 def inRange (lo hi : SqlVal) (r : Row) : Bool := lo.lt r.key && r.key.lt hi
 
+/-- `AND length(key) = len(prefix) + 16` for a text prefix (keys of a queue whose prefix
+extends this one lie in the same range but are longer); no such clause for integer keys -/
+def sameLength (prefix_ : Option Str) (k : SqlVal) : Bool :=
+  match prefix_, k with
+  | none, _ => true
+  | some p, .text cs => cs.length == p.length + 16
+  | some _, _ => false
+
 /-- rows of the queue range ordered by key -/
 def queueRows (s : Cache) (prefix_ : Option Str) : List Row :=
   let (lo, hi) := queueRange prefix_
-  isort (fun a b => a.key.lt b.key) (s.rows.filter (fun r => inRange lo hi r && r.raw))
+  isort (fun a b => a.key.lt b.key)
+    (s.rows.filter (fun r => inRange lo hi r && r.raw && sameLength prefix_ r.key))
 
 def lastRow? (rows : List Row) : Option Row := rows.getLast?
 
